@@ -443,6 +443,9 @@ func (d *Decoder) Repair(checkParity bool) ([]string, error) {
 		}
 
 		entry := savedEntries[i]
+		if entry.header.FileBytes > uint64(len(shards[i])) {
+			return repairedPaths, errors.New("file larger than reconstructed data")
+		}
 		data = shards[i][:entry.header.FileBytes]
 		if sixteenKHash(data) != entry.header.SixteenKHash {
 			return repairedPaths, errors.New("hash mismatch (16k) in reconstructed data")
